@@ -49,6 +49,14 @@ def _orient(ctx, u):
     return o, {'T': T, 'B': B, 'vf': vf, 'o': o}
 
 
+def _frame(st):
+    """normalize/symmetrize/transform return a new object: the receiver's vectors are what they were (no in-place update through an alias)."""
+    t, b, c = z3.Ints('ft fb fc')
+    own = st['o'].get('vectors')
+    return ('the receiver keeps its own vectors', z3.ForAll([t, b, c], z3.Implies(
+        z3.And(t >= 0, t < st['T'], b >= 0, b < st['B'], c >= 0, c < 3), own.at(t, b, c) == st['vf'](t, b, c))))
+
+
 def unit_directions(tier):
     u = Unit('C18.directions')
     install_common(u)
@@ -132,7 +140,7 @@ def unit_normalize(tier):
         s = u._sqrt(n2)
         return [('positive multiple of the input: w * |v| = v', z3.ForAll([t, b, c], z3.Implies(z3.And(rng, c >= 0, c < 3), z3.And(s > 0, w.at(t, b, c) * s == vf(t, b, c))))),
                 ('unit length', z3.ForAll([t, b], z3.Implies(rng, (w.at(t, b, 0) * w.at(t, b, 0) + w.at(t, b, 1) * w.at(t, b, 1) + w.at(t, b, 2) * w.at(t, b, 2)) * n2 == n2))),
-                ('shape', z3.And(w.shape[0] == T, w.shape[1] == B, w.shape[2] == 3))]
+                ('shape', z3.And(w.shape[0] == T, w.shape[1] == B, w.shape[2] == 3)), _frame(st)]
     u.prove_function('gemdat.orientations', 'Orientations.normalize', setup, post, raises=(),
                      replay={'fn': 'verif.props.c18:replay_orient', 'sizes': lambda st: [], 'concretise': lambda m, st, ob: {'seed': 4}})
     return u
@@ -163,7 +171,7 @@ def unit_symmetrize(tier):
         img = lambda jj: vf(t, b, 0) * sf(0, jj, k) + vf(t, b, 1) * sf(1, jj, k) + vf(t, b, 2) * sf(2, jj, k)  # noqa: E731
         return [('one image per (vector, operation): shape (T, bonds*ops, 3)', z3.And(w.shape[0] == T, to_z3(w.shape[1]) == to_z3(AB), w.shape[2] == 3)),
                 ('image of vector b under operation k at row (b,k)', z3.ForAll([t, b, k], z3.Implies(
-                    z3.And(t >= 0, t < T, b >= 0, b < B, k >= 0, k < K), z3.And(*[w.at(t, fl(b, k), jj) == img(jj) for jj in range(3)]))))]
+                    z3.And(t >= 0, t < T, b >= 0, b < B, k >= 0, k < K), z3.And(*[w.at(t, fl(b, k), jj) == img(jj) for jj in range(3)])))), _frame(st)]
     u.prove_function('gemdat.orientations', 'Orientations.symmetrize', setup, post, raises=(),
                      replay={'fn': 'verif.props.c18:replay_orient', 'sizes': lambda st: [], 'concretise': lambda m, st, ob: {'seed': 5}})
     return u
@@ -185,7 +193,7 @@ def unit_transform(tier):
         w = res.get('vectors')
         t, b = z3.Ints('pt pb')
         return [('w[t,b] = A . v[t,b]', z3.ForAll([t, b], z3.Implies(z3.And(t >= 0, t < T, b >= 0, b < B), z3.And(*[
-            w.at(t, b, j) == mf(j, 0) * vf(t, b, 0) + mf(j, 1) * vf(t, b, 1) + mf(j, 2) * vf(t, b, 2) for j in range(3)]))))]
+            w.at(t, b, j) == mf(j, 0) * vf(t, b, 0) + mf(j, 1) * vf(t, b, 1) + mf(j, 2) * vf(t, b, 2) for j in range(3)])))), _frame(st)]
     u.prove_function('gemdat.orientations', 'Orientations.transform', setup, post, raises=(),
                      replay={'fn': 'verif.props.c18:replay_orient', 'sizes': lambda st: [], 'concretise': lambda m, st, ob: {'seed': 6}})
     return u
@@ -282,7 +290,11 @@ def replay_orient(inputs):
         o = Orientations(traj, 'P', 'O')
     except Exception as e:
         return {'reproduced': True, 'detail': f'Orientations raised {type(e).__name__}: {e}'}
-    v = o.vectors
+    v = np.array(o.vectors, copy=True)  # the oracle keeps its own copy: the operations below must not change the receiver
+
+    def untouched(what):
+        if not np.array_equal(np.asarray(o.vectors), v):
+            bad.append(f'{what} changed the vectors of the object it was called on')
     T = len(traj)
     pc, ps = traj.filter('P').positions, traj.filter('O').positions
     if v.shape != (T, 8, 3):
@@ -302,11 +314,13 @@ def replay_orient(inputs):
     n = o.normalize()
     if np.abs(np.linalg.norm(n.vectors, axis=-1) - 1).max() > 1e-12 or (np.einsum('tbi,tbi->tb', n.vectors, v) <= 0).any():
         bad.append('normalize does not give unit vectors with unchanged direction')
+    untouched('normalize()')
     rng = np.random.default_rng(seed)
     A = rng.normal(size=(3, 3))
     tr = o.transform(A)
     if not np.allclose(tr.vectors, v @ A.T, atol=1e-12):
         bad.append('transform does not apply the matrix to every vector')
+    untouched('transform()')
     from pymatgen.symmetry.groups import PointGroup
     for pg in ('m-3m', 'mmm', '4/mmm', '2/m', '-1'):
         ops = np.array([e.rotation_matrix for e in PointGroup(pg).symmetry_ops])
@@ -325,6 +339,7 @@ def replay_orient(inputs):
                 if not np.allclose(g, e_, atol=1e-7):
                     bad.append(f'symmetrize({pg}) images of vector ({t},{b}) are not its orbit under the group')
                     break
+    untouched('symmetrize()')
     sph = o.vectors_spherical
     az, el, r = np.radians(sph[..., 0]), np.radians(sph[..., 1]), sph[..., 2]
     back = np.stack([r * np.cos(el) * np.cos(az), r * np.cos(el) * np.sin(az), r * np.sin(el)], axis=-1)
